@@ -1,3 +1,4 @@
+import GenlmModel.Proofs.GenLink.Cfg
 import Batteries.Tactic.Alias
 import GenlmModel.Proofs.PrefixWeight
 import GenlmModel.Proofs.DerivSkip
@@ -7,6 +8,11 @@ import GenlmModel.Proofs.LimPrefix
 import GenlmModel.Proofs.LimNorm
 /-! # C03 — prefix weights -/
 namespace Genlm.Props.C03
+/-! ## re-checked tie to the source: the definitions REGENERATED from the Python builder functions on every run
+(`Generated/Builders.lean`, by `harness/translate.py`) are the hand-written models the theorems below are about -/
+alias gen_prefix_transducer_eq_model := Genlm.gen_prefix_transducer_eq_model
+alias gen_prefix_transducer_path_sums := Genlm.gen_prefix_transducer_TPk
+
 /-- the prefix transducer relates every string to each of its prefixes exactly once -/
 alias prefix_transducer_unique := Genlm.prefix_transducer_unique'
 alias prefix_transducer_total := Genlm.prefix_transducer_total
